@@ -25,6 +25,7 @@ structure SysWF (cfg : SysConfig) (asts : Name → List Pat) : Prop where
   us : cfg.P.underscoreNames = true
   dcp : cfg.P.doubledCloseParen = true
   mdc : cfg.B.mdcWhole = true
+  mdcE : cfg.B.mdcEmptyOk = true
   printed : ∀ a ∈ cfg.routing.appenders, (cfg.app a).kind = .pattern → (cfg.app a).pattern = showPats (asts a)
   wf : ∀ a ∈ cfg.routing.appenders, (cfg.app a).kind = .pattern → WF cfg.P (asts a)
 
@@ -113,7 +114,7 @@ theorem encode_ok (cfg : SysConfig) (asts : Name → List Pat) (h : SysWF cfg as
   cases hk : (cfg.app a).kind with
   | json => simp [chunksFor, hk, encodeWith, specLine]
   | pattern =>
-    obtain ⟨o, ho, ht⟩ := C09_encode_parse_show cfg.cc h.cc cfg.P h.us h.dcp cfg.B h.mdc r.env r.record
+    obtain ⟨o, ho, ht⟩ := C09_encode_parse_show cfg.cc h.cc cfg.P h.us h.dcp cfg.B h.mdc h.mdcE r.env r.record
       (asts a) (h.wf a ha hk) (hd hk)
     have hp := C09_parse_show cfg.cc h.cc cfg.P h.us h.dcp (asts a) (h.wf a ha hk)
     simp only [Parse.run, newEncoder, hp, omap] at ho
